@@ -7,6 +7,7 @@ import (
 	"bytes"
 	"crypto"
 	"crypto/tls"
+	"slices"
 
 	dtlsconfig "github.com/pion/dtls/v3/internal/config"
 	dtlserrors "github.com/pion/dtls/v3/internal/errors"
@@ -61,10 +62,16 @@ func flight5ClientAuthPackets(
 			dtlserrors.ErrInvalidPrivateKey
 	}
 
-	signatureScheme, err := signaturehash.SelectSignatureScheme13(
-		certificateRequestSignatureSchemes(certificateRequest),
-		signer,
-	)
+	// Only schemes this endpoint allows itself: the request lists what the
+	// server accepts, not what the client's own policy permits.
+	requested := certificateRequestSignatureSchemes(certificateRequest)
+	allowed := make([]signaturehash.Algorithm, 0, len(requested))
+	for _, scheme := range requested {
+		if slices.Contains(flightCtx.cfg.LocalSignatureSchemes, scheme) {
+			allowed = append(allowed, scheme)
+		}
+	}
+	signatureScheme, err := signaturehash.SelectSignatureScheme13(allowed, signer)
 	if err != nil {
 		return nil, &alert.Alert{Level: alert.Fatal, Description: alert.InsufficientSecurity}, err
 	}
